@@ -287,6 +287,7 @@ type treeGen struct {
 	forms      bool
 	nils       bool
 	validConds bool // only Conditions that pass Valid()
+	f32        bool // float32 leaves among the values (rendering only)
 }
 
 var leafAlphabet = []string{"a", "b", "c", "x", "y", "z", "0", "7", "SP", "SP", "TAB", "U2", "U3", "U4", ",", ";", "=", "&", "(", ")", "-", "_", "A", "N", "D"}
@@ -357,7 +358,7 @@ func (g *treeGen) leaf() Node {
 	case 2:
 		return Node{"t": "leaf", "ty": "str", "v": []any{}}
 	case 3:
-		if g.rng.Intn(3) == 0 {
+		if g.f32 && g.rng.Intn(3) == 0 {
 			return Node{"t": "leaf", "ty": "f32", "v": toksAny(Tokenize([]string{"0.1", "1.1", "2.5", "3.3"}[g.rng.Intn(4)]))}
 		}
 	}
@@ -506,6 +507,7 @@ func cmdTreeGen(args []string) {
 
 var treeGenerators = map[string]func(g *treeGen) (Node, any){
 	"render": func(g *treeGen) (Node, any) {
+		g.f32 = true // float32 leaves: only the rendering is specified for them
 		s := g.stack(0)
 		for s["k"] == "BASIC" && g.rng.Intn(4) != 0 {
 			s = g.stack(0)
